@@ -391,6 +391,32 @@ func checkScaleMode(c ScaleCase, stateOnly bool) pbt.Verdict {
 				return fail("op %d: GetProcessLog(%q) after scaling: %v", oi, name, err)
 			}
 		}
+		// "each with its own log": what a replica prints after the request - a renamed survivor
+		// as much as an added one - is found under the name it has now, and nowhere else
+		if !stateOnly {
+			for _, name := range newNames {
+				if len(e.W.LiveCmds(name)) != 1 {
+					continue
+				}
+				text := fmt.Sprintf("printed-after-op-%d-by-%s", oi, name)
+				if !e.Do(sc.Step{Op: sc.OpLine, Proc: name, Stream: 1, Text: text}) {
+					continue
+				}
+				for _, other := range newNames {
+					lines, err := e.R.GetProcessLog(other, 20, 0)
+					if err != nil {
+						return fail("op %d: GetProcessLog(%q) after scaling: %v", oi, other, err)
+					}
+					has := false
+					for _, l := range lines {
+						has = has || strings.Contains(l, text)
+					}
+					if has != (other == name) {
+						return fail("op %d: after scaling %s %d->%d, a line printed by %s afterwards: found in the log of %s = %v (last lines %q)", oi, op.Proc, cur, n, name, other, has, lines)
+					}
+				}
+			}
+		}
 		for i := n; i < cur; i++ {
 			stillThere := false
 			for _, nn := range newNames {
